@@ -146,10 +146,44 @@ func normalise(repo string, pkgs []*packages.Package) (*normResult, []*packages.
 	base := baselineFuncs()
 	res := &normResult{Overlay: map[string][]byte{}, Dead: map[string]bool{}}
 	skip := map[string]bool{}
-	if len(newHelpers(pkgs, base, skip)) == 0 {
+	cbase := baselineClosures()
+	if len(newHelpers(pkgs, base, skip)) == 0 && len(newClosureVars(pkgs, cbase, skip)) == 0 {
 		return res, pkgs, nil
 	}
-	for round := 0; round < 60; round++ {
+	for round := 0; round < 150; round++ {
+		// local closures first: one step per file and round
+		if cvs := newClosureVars(pkgs, cbase, skip); len(cvs) > 0 {
+			stepped := false
+			doneFile := map[string]bool{}
+			for _, cv := range cvs {
+				name := cv.pkg.Fset.Position(cv.file.Pos()).Filename
+				if doneFile[name] {
+					continue
+				}
+				content, err := fileContent(res.Overlay, name)
+				if err != nil {
+					return nil, nil, err
+				}
+				out, what, err := closureStep(cv, content)
+				if err != nil {
+					skip[closureKey(cv)] = true
+					res.Log = append(res.Log, fmt.Sprintf("local closure %s in %s left alone: %v", cv.obj.Name(), cv.encl, err))
+					continue
+				}
+				res.Overlay[name] = out
+				res.Log = append(res.Log, what)
+				doneFile[name] = true
+				stepped = true
+			}
+			if stepped {
+				var err error
+				pkgs, err = loadPkgs(repo, res.Overlay)
+				if err != nil {
+					return nil, nil, fmt.Errorf("after closure normalisation: %v", err)
+				}
+				continue
+			}
+		}
 		helpers := newHelpers(pkgs, base, skip)
 		if len(helpers) == 0 {
 			break
